@@ -36,6 +36,9 @@ CLAIMED["C13"] = ("TLA+ Serde: every small abstract document (repeated keys, und
 CLAIMED["C18"] = ("TLA+ Container (key->node map over objects incl. a duplicate-key object, Views, CStep, DotOK) : MapLaws model-checked; every (container state, operation) case TLC emits replayed on all four containers through handles handed out by the container; DOT exports of every state and seeded long histories judged event-by-event by TLC (TraceContainer)",
   "All container states over 3 keys + 1 duplicate-key object x adjacency states with <=2 edges (thorough: 2 values, <=3 edges) x every operation; to_dot/to_dot_with_attr under the callback family {none,one,two attrs}^3; random histories over 6 keys + 2 duplicates.", "§4 C18")
 
+CLAIMED["C15"] = ("paired trace validation: seeded whole-API programs executed side by side on each plain/sync pair, TLC (TracePaired) requires equal results and equal projected states on every event besides the normal match against Container/Adjacency; plus the exhaustive TLC-emitted case sets of MC_Adjacency, MC_Search and MC_Container replayed on both members of each pair and compared case by case",
+  "The specification has a single model per pair (only Directed differs); 50 programs x 200 calls per pair (thorough 1000 x 500) over mutations, container calls, all traversals with options, observers, comparisons, scc, serde and DOT; all enumerated cases of the other checks on both members.", "§4 C15")
+
 NOT_YET = {}
 props = [json.loads(l) for l in open(os.path.join(V, "properties.jsonl"))]
 checks = []
